@@ -915,4 +915,51 @@ impl<K: KdfTrait> Drop for ExporterSecret<K> {
                         &pk_recip.to_bytes()
                     );
                     let _ = pk_sender_id;""")]),
+    # ------------------------------------------------------------------ C13
+    dict(name='c13-open-unchecked-sub', expect=[('C13', 'R13.3')],
+         note='ciphertext shorter than a tag: subtraction overflow panic (debug) / slice panic (release)',
+         edits=[(AEAD, """        let msg_len = ciphertext
+            .len()
+            .checked_sub(tag_len)
+            .ok_or(HpkeError::OpenError)?;""", """        let msg_len = ciphertext.len() - tag_len;""")]),
+    dict(name='c13-tag-from-bytes-guard-removed', expect=[('C13', 'R13.3')],
+         note='AeadTag::from_bytes panics in copy_from_slice for any length != 16',
+         edits=[(AEAD, """        enforce_equal_len(Self::size(), encoded.len())?;
+
+        // Copy to a fixed-size array
+        let mut arr = <GenericArray<u8, Self::OutputSize> as Default>::default();""", """        // Copy to a fixed-size array
+        let mut arr = <GenericArray<u8, Self::OutputSize> as Default>::default();""")]),
+    dict(name='c13-max-pubkey-size-97', expect=[('C13', 'R13.3')],
+         note='P-521 encapsulation panics in the concat buffer (133 > 97); p521 is not in the default features',
+         edits=[("src/dhkex.rs", "pub(crate) const MAX_PUBKEY_SIZE: usize = 133;", "pub(crate) const MAX_PUBKEY_SIZE: usize = 97;")]),
+    dict(name='c13-decap-unwrapped-in-setup', expect=[('C13', 'R13.3'), ('C13', 'R13.4')],
+         note='a small-order / invalid encapsulated key panics the receiver',
+         edits=[(SETUP, "let shared_secret = Kem::decap(sk_recip, pk_sender_id, encapped_key)?;", "let shared_secret = Kem::decap(sk_recip, pk_sender_id, encapped_key).unwrap();")]),
+    dict(name='c13-fixed-prefix-of-input', expect=[('C13', 'R13.3')],
+         note='open() peeks at the first 16 bytes: panics on inputs shorter than 16',
+         edits=[(AEAD, """        // Now deconstruct the auth'd ciphertext
+        let (ciphertext, tag_slice) = ciphertext.split_at(msg_len);""", """        // Now deconstruct the auth'd ciphertext
+        let _hdr = &ciphertext[..16];
+        let (ciphertext, tag_slice) = ciphertext.split_at(msg_len);""")]),
+    dict(name='c13-nist-privkey-guard-removed', expect=[('C13', 'R13.3')],
+         note='NIST PrivateKey::from_bytes panics in the &[u8] -> GenericArray conversion on wrong lengths',
+         edits=[(NIST, """                    // Check the length
+                    enforce_equal_len(Self::OutputSize::to_usize(), encoded.len())?;
+""", "")]),
+    dict(name='c13-max-digest-size-48', expect=[('C13', 'R13.3')],
+         note='HKDF-SHA512 suites panic in the key schedule concat buffer (1+64+64 = 129 > 126)',
+         edits=[(KDF, "pub(crate) const MAX_DIGEST_SIZE: usize = 64;", "pub(crate) const MAX_DIGEST_SIZE: usize = 42;")]),
+    dict(name='c13-export-only-nonce-4', expect=[('C13', 'R13.3')],
+         note='nonce_size - 8 underflows for the export-only suite before its own panic message (still a panic, but also breaks D7 for any future 4-byte-nonce AEAD)',
+         edits=[("src/aead/export_only.rs", "    type NonceSize = typenum::U128;", "    type NonceSize = typenum::U4;")]),
+    dict(name='c13-info-length-assert', expect=[('C13', 'R13.3')],
+         note='setup panics for info strings longer than 64 KiB',
+         edits=[(SETUP, """    // Put together the binding context used for all KDF operations
+    let suite_id = full_suite_id::<A, Kdf, Kem>();
+
+    // In KeySchedule(),""", """    // Put together the binding context used for all KDF operations
+    let suite_id = full_suite_id::<A, Kdf, Kem>();
+    assert!(info.len() < 65536);
+
+    // In KeySchedule(),""")]),
 ]
